@@ -113,6 +113,16 @@ def verify_worker(args):
             verdicts.append(v)
             if v.status == 'refuted':
                 refuted_names.add(ob.name)
+                function_level = any(tag in ob.name for tag in ('#post[', '#raises-only-declared', '#must-raise[', '#exc-post[', '#frame'))
+                if function_level and v.z3_model is not None and getattr(ob, 'ctx', None) is not None:
+                    try:
+                        v.witness = c.witness(v.z3_model, ob.ctx)
+                        if v.witness is not None:
+                            v.witness['contract'] = c.key
+                            v.witness['obligation'] = ob.name
+                    except Exception as e:      # pragma: no cover
+                        v.witness = None
+                        v.info['witness_error'] = f'{type(e).__name__}: {e}'
         merged = merge_verdicts(verdicts)
         out['verdicts'] = [v.as_dict() for v in merged]
         out['n_queries'] = len(verdicts)
